@@ -30,6 +30,7 @@ type lInput struct {
 type lCfg struct {
 	Skip      bool `json:"skip"`
 	IssuerCfg bool `json:"issuerCfg"`
+	SloCfg    bool `json:"sloCfg"`
 }
 type lObs struct {
 	Res    string `json:"res"`
@@ -102,6 +103,9 @@ func (Logout) Run(c *orch.Case) *orch.Outcome {
 		if in.Dest == "near" {
 			rootSpec.Destination = idp.S(nearMiss(world.SLO, rng))
 		}
+		if in.Dest == "acs" {
+			rootSpec.Destination = idp.S(world.ACS)
+		}
 		root = b.ResponseEl(rootSpec)
 		if (c.Seed/4)%2 == 1 {
 			claimValidated(root) // the sender claims, by attribute and by child elements, to have been validated
@@ -153,11 +157,14 @@ func (Logout) Run(c *orch.Case) *orch.Outcome {
 	}
 	doc := idp.Serialize(root, lay, rng)
 	enc := idp.Encode(doc, c.Seed%2 == 0)
-	sp := spFor(c.Seed/2, fmt.Sprint("logout", cfg.Skip, cfg.IssuerCfg), func() *saml2.SAMLServiceProvider {
+	sp := spFor(c.Seed/2, fmt.Sprint("logout", cfg.Skip, cfg.IssuerCfg, cfg.SloCfg), func() *saml2.SAMLServiceProvider {
 		sp := w.NewSP()
 		sp.SkipSignatureValidation = cfg.Skip
 		if !cfg.IssuerCfg {
 			sp.IdentityProviderIssuer = ""
+		}
+		if !cfg.SloCfg {
+			sp.ServiceProviderSLOURL = ""
 		}
 		return sp
 	})
